@@ -44,6 +44,7 @@ type Knobs struct {
 	NodeGates        bool
 }
 
+//go:norace
 func (k Knobs) Apply() {
 	consensus.CoinbaseMaturity = k.CoinbaseMaturity
 	consensus.MinFrozenPeriod = k.MinFrozen
@@ -78,14 +79,17 @@ type fakeServer struct {
 	best *blockchain.BlockNode
 }
 
+//go:norace
 func setPrivate(f reflect.Value, v reflect.Value) {
 	reflect.NewAt(f.Type(), unsafe.Pointer(f.UnsafeAddr())).Elem().Set(v)
 }
 
+//go:norace
 func getPrivate(f reflect.Value) reflect.Value {
 	return reflect.NewAt(f.Type(), unsafe.Pointer(f.UnsafeAddr())).Elem()
 }
 
+//go:norace
 func newFakeServer(node *SimNode) *fakeServer {
 	s := &fakeServer{node: node, bc: &blockchain.Blockchain{}, sm: &netsync.SyncManager{}}
 	v := reflect.ValueOf(s.bc).Elem()
@@ -107,12 +111,14 @@ func newFakeServer(node *SimNode) *fakeServer {
 	return s
 }
 
+//go:norace
 func (s *fakeServer) setTip(b *BlockRec) {
 	h := b.Hash
 	s.best.Height = b.Height
 	s.best.Hash = &h
 }
 
+//go:norace
 func (s *fakeServer) listeners() []blockchain.Listener {
 	v := reflect.ValueOf(s.bc).Elem()
 	m := getPrivate(v.FieldByName("listeners"))
@@ -123,10 +129,17 @@ func (s *fakeServer) listeners() []blockchain.Listener {
 	return out
 }
 
+//go:norace
 func (s *fakeServer) Blockchain() *blockchain.Blockchain { return s.bc }
-func (s *fakeServer) ChainDB() database.Db               { return s.node }
-func (s *fakeServer) TxMemPool() *blockchain.TxPool      { return s.pool }
-func (s *fakeServer) SyncManager() *netsync.SyncManager  { return s.sm }
+
+//go:norace
+func (s *fakeServer) ChainDB() database.Db { return s.node }
+
+//go:norace
+func (s *fakeServer) TxMemPool() *blockchain.TxPool { return s.pool }
+
+//go:norace
+func (s *fakeServer) SyncManager() *netsync.SyncManager { return s.sm }
 
 // WalletState is the harness's knowledge of one wallet inside one instance.
 type WalletState struct {
@@ -192,7 +205,7 @@ type World struct {
 	// death of the whole process at that instant instead of being recorded only
 	FatalIsCrash bool
 	Crypto       *Rng
-	Gen       *Gen
+	Gen          *Gen
 
 	Violations []Violation
 	Removed    []*WalletState // wallets whose removal completed (candidates for re-import)
@@ -209,12 +222,14 @@ type World struct {
 var (
 	globalOnce   sync.Once
 	currentWorld *World
-	worldMu      sync.Mutex
+	worldMu      hmu
 )
 
 var logDir string
 
 // logSize returns the total size of the wallet's log files.
+//
+//go:norace
 func logSize() int64 {
 	var n int64
 	m, _ := filepath.Glob(filepath.Join(logDir, "sim.log-*"))
@@ -231,6 +246,8 @@ var reLogMsg = regexp.MustCompile(`msg="((?:[^"\\]|\\.)*)"`)
 // RecentErrors returns the distinct error-level messages the wallet logged
 // during this run (most recent last, at most n). They are appended to
 // violation details so that findings can be told apart by cause.
+//
+//go:norace
 func (w *World) RecentErrors(n int) []string {
 	m, _ := filepath.Glob(filepath.Join(logDir, "sim.log-*"))
 	sort.Strings(m)
@@ -278,6 +295,8 @@ func (w *World) RecentErrors(n int) []string {
 }
 
 // CleanupGlobal removes process-wide scratch files.
+//
+//go:norace
 func CleanupGlobal() {
 	if logDir != "" {
 		os.RemoveAll(logDir)
@@ -285,6 +304,8 @@ func CleanupGlobal() {
 }
 
 // initGlobal installs process-wide hooks once.
+//
+//go:norace
 func initGlobal() {
 	globalOnce.Do(func() {
 		dir, err := os.MkdirTemp("", "verifsim-log")
@@ -321,6 +342,8 @@ func initGlobal() {
 }
 
 // NewWorld builds a world inside the current synctest bubble.
+//
+//go:norace
 func NewWorld(seed uint64, plan, sched *Tape) *World {
 	initGlobal()
 	w := &World{Seed: seed, Plan: plan, Params: config.ChainParams, Stats: map[string]int{}, Extra: map[string]interface{}{}}
@@ -348,25 +371,32 @@ func NewWorld(seed uint64, plan, sched *Tape) *World {
 }
 
 // SetKnobs installs the per-run knobs (before any instance is created).
+//
+//go:norace
 func (w *World) SetKnobs(k Knobs) {
 	w.Knobs = k
 	w.NodeGates = k.NodeGates
 	k.Apply()
 }
 
+//go:norace
 func (w *World) Violate(class, format string, args ...interface{}) {
 	w.Violations = append(w.Violations, Violation{Class: class, Detail: fmt.Sprintf(format, args...)})
 }
 
+//go:norace
 func (w *World) Logf(format string, args ...interface{}) {
 	if w.LogOn {
 		w.Log = append(w.Log, fmt.Sprintf(format, args...))
 	}
 }
 
+//go:norace
 func (w *World) Stat(k string) { w.Stats[k]++ }
 
 // NewInstance creates a wallet process on a fresh disk (not yet opened).
+//
+//go:norace
 func (w *World) NewInstance(name string) *Instance {
 	inst := &Instance{Name: name, W: w, Disk: NewSimDisk(), Wallets: map[string]*WalletState{}, PubPass: PubPass}
 	cfg := &config.Config{Core: config.NewDefCoreConfig(), Wallet: config.NewDefWalletConfig()}
@@ -379,6 +409,8 @@ func (w *World) NewInstance(name string) *Instance {
 // Open opens (or creates) the wallet database and builds the WalletManager.
 // It runs in the calling goroutine (root): nothing else of this instance is
 // alive at that moment.
+//
+//go:norace
 func (inst *Instance) Open() error {
 	w := inst.W
 	w.S.FreeWriterLock()
@@ -411,6 +443,8 @@ func (inst *Instance) Open() error {
 
 // Call runs fn on a managed client goroutine and returns it (parked at its
 // start gate). Panics are recorded.
+//
+//go:norace
 func (inst *Instance) Call(role Role, name string, fn func()) *G {
 	w := inst.W
 	return w.S.Go(role, inst, name, func() {
@@ -432,6 +466,8 @@ func (inst *Instance) Call(role Role, name string, fn func()) *G {
 }
 
 // StartAsync launches WalletManager.Start on a starter goroutine.
+//
+//go:norace
 func (inst *Instance) StartAsync(errp *error) *G {
 	s := inst.W.S
 	g := inst.Call(RoleStarter, "Start", func() {
@@ -455,6 +491,8 @@ func (inst *Instance) StartAsync(errp *error) *G {
 
 // finishStart must be called by the root after the starter is done and the
 // children have registered.
+//
+//go:norace
 func (inst *Instance) finishStart() {
 	s := inst.W.S
 	s.mu.Lock()
@@ -465,6 +503,8 @@ func (inst *Instance) finishStart() {
 }
 
 // StartSolo opens nothing; it runs Start to completion without interleaving.
+//
+//go:norace
 func (inst *Instance) StartSolo() error {
 	var err error
 	g := inst.StartAsync(&err)
@@ -477,6 +517,8 @@ func (inst *Instance) StartSolo() error {
 
 // inject hands a queued notification to the wallet's listener, as the node's
 // chain goroutine would.
+//
+//go:norace
 func (inst *Instance) inject(d delivery) {
 	if inst.W.LogOn {
 		if d.block != nil {
@@ -495,6 +537,8 @@ func (inst *Instance) inject(d delivery) {
 }
 
 // Announce queues a tip notification for every running instance.
+//
+//go:norace
 func (w *World) Announce(b *BlockRec) {
 	for _, inst := range w.Insts {
 		inst.srv0SetTip(w.Node.Tip())
@@ -510,6 +554,8 @@ func (w *World) Announce(b *BlockRec) {
 }
 
 // AnnounceTx queues an unconfirmed transaction.
+//
+//go:norace
 func (w *World) AnnounceTx(tx *wire.MsgTx) {
 	w.Node.RegisterTx(tx)
 	for _, inst := range w.Insts {
@@ -520,6 +566,7 @@ func (w *World) AnnounceTx(tx *wire.MsgTx) {
 	}
 }
 
+//go:norace
 func (inst *Instance) srvListeners() []blockchain.Listener {
 	if inst.srv == nil {
 		return nil
@@ -527,6 +574,7 @@ func (inst *Instance) srvListeners() []blockchain.Listener {
 	return inst.srv.listeners()
 }
 
+//go:norace
 func (inst *Instance) srv0SetTip(b *BlockRec) {
 	if inst.srv != nil {
 		inst.srv.setTip(b)
@@ -535,6 +583,8 @@ func (inst *Instance) srv0SetTip(b *BlockRec) {
 
 // SyncTips updates every instance's view of the node's best height (called
 // after each node database step).
+//
+//go:norace
 func (w *World) SyncTips() {
 	t := w.Node.Tip()
 	for _, inst := range w.Insts {
@@ -544,6 +594,8 @@ func (w *World) SyncTips() {
 
 // Crash kills the instance: every goroutine of it is abandoned, volatile state
 // is gone, the disk survives as a crash image.
+//
+//go:norace
 func (inst *Instance) Crash() {
 	s := inst.W.S
 	s.mu.Lock()
@@ -561,6 +613,8 @@ func (inst *Instance) Crash() {
 }
 
 // SortedWalletIDs lists the harness-known wallets of the instance.
+//
+//go:norace
 func (inst *Instance) SortedWalletIDs() []string {
 	var ids []string
 	for id := range inst.Wallets {
@@ -571,10 +625,80 @@ func (inst *Instance) SortedWalletIDs() []string {
 }
 
 // syncedQuiet reads the wallet's synced height for logging (ungated).
+//
+//go:norace
 func (inst *Instance) syncedQuiet() uint64 {
 	if inst.WM == nil {
 		return 0
 	}
 	h, _ := inst.WM.SyncedTo()
 	return h
+}
+
+// CurrentParked describes where the goroutines of the running world are
+// parked (watchdog diagnostics; reads without the scheduler lock).
+//
+//go:norace
+func CurrentParked() string {
+	w := currentWorld
+	if w == nil || w.S == nil {
+		return "-"
+	}
+	var out []string
+	for _, g := range w.S.order {
+		if !g.done {
+			out = append(out, g.String()+"@"+g.parked)
+		}
+	}
+	return strings.Join(out, " ")
+}
+
+// walletMutexHeld probes the wallet's internal mutexes (keystore manager,
+// address managers, coin store, pending set) with TryLock. It is called by a
+// goroutine about to park at a read gate: all other goroutines are parked and,
+// by this very rule, hold none of them, so a held mutex is held by the caller.
+// Parking there would let another goroutine run into that mutex, and a mutex
+// wait is invisible to the bubble.
+//
+//go:norace
+func (inst *Instance) walletMutexHeld() bool {
+	if inst.WM == nil {
+		return false
+	}
+	raceOff()
+	defer raceOn()
+	try := func(v reflect.Value, name string) bool {
+		if !v.IsValid() || (v.Kind() == reflect.Ptr && v.IsNil()) {
+			return false
+		}
+		if v.Kind() == reflect.Ptr {
+			v = v.Elem()
+		}
+		f := v.FieldByName(name)
+		if !f.IsValid() {
+			return false
+		}
+		m := (*sync.Mutex)(unsafe.Pointer(f.UnsafeAddr()))
+		if m.TryLock() {
+			m.Unlock()
+			return false
+		}
+		return true
+	}
+	wm := reflect.ValueOf(inst.WM).Elem()
+	ks := wm.FieldByName("ksmgr")
+	if try(ks, "mu") || try(wm.FieldByName("utxoStore"), "muUtxo") || try(wm.FieldByName("ntfnsHandler"), "memMtx") {
+		return true
+	}
+	if ks.IsValid() && !ks.IsNil() {
+		mk := ks.Elem().FieldByName("managedKeystores")
+		if mk.IsValid() && mk.Kind() == reflect.Map {
+			for _, k := range mk.MapKeys() {
+				if try(mk.MapIndex(k), "mu") {
+					return true
+				}
+			}
+		}
+	}
+	return false
 }
